@@ -106,7 +106,7 @@ Section Step.
     | OpToken GClientCredentials r, Out (OTokens t) =>
         (issue_clause cfg (client_of (cr_id (t_cred r))) (t_bind r) t,
          add_tok k (tr_at t) (bnd_of_request cfg (t_bind r)))
-    | OpToken GCiba r, Out (OTokens t) =>
+    | OpToken GCiba r, Out (OTokens t) | OpToken GJwtBearer r, Out (OTokens t) =>
         (issue_clause cfg (client_of (cr_id (t_cred r))) (t_bind r) t,
          add_tok (add_tok k (tr_at t) (bnd_of_request cfg (t_bind r))) (tr_rt t) (bnd_of_request cfg (t_bind r)))
     | OpToken GAuthorizationCode r, Out (OTokens t) =>
